@@ -45,12 +45,12 @@ func Mutate(req string, k int, rng *rand.Rand) (string, string) {
 			return req[:i] + req[i+1:], op
 		}
 	case "unknown-field":
-		for _, f := range []string{"s:", "i:", "b:"} {
+		for _, f := range []string{"s:", "i:", "b:", "j:"} {
 			if i := pick(f); i >= 0 {
 				return req[:i] + "zz" + req[i+1:], op
 			}
 		}
-		return strings.Replace(req, "{ k s i b }", "{ k zz }", 1), op
+		return strings.Replace(req, "{ k s i b j }", "{ k zz }", 1), op
 	case "wrong-operand-kind":
 		for _, f := range []string{"_eq: ", "_gt: ", "_ge: ", "_lt: ", "_le: ", "_ne: "} {
 			if i := pick(f); i >= 0 {
@@ -93,7 +93,7 @@ func Mutate(req string, k int, rng *rand.Rand) (string, string) {
 	case "negative-limit":
 		return strings.Replace(req, "T(", "T(limit: -1, offset: -5, ", 1), op
 	case "empty-selection":
-		return strings.Replace(req, "{ k s i b }", "{ }", 1), op
+		return strings.Replace(req, "{ k s i b j }", "{ }", 1), op
 	case "unknown-root":
 		return strings.Replace(req, "T", "Nope", 1), op
 	case "unknown-operator":
